@@ -54,4 +54,53 @@ TEXT = {
         "level_note": COMMON_NOTE + "Hash/Eq/Ord are derived: modelled as functions of the storage integer. Partial: set_slice_mut not yet in C11_history.",
         "technique": "Lean 4 proof (invariant by induction over operation histories + order embedding) + differential correspondence",
     },
+    "C12": {
+        "level_text": "Proved: on base strings rc is an involution, sends position i to n-1-i and base b to 3-b, and commutes with k-mer "
+                      "extraction (windows_rc); for packed k-mers of every shipped type rc refines the string rc (ladders extracted from kmer.rs, "
+                      "all five widths), is an involution on storage, min_rc is the lexicographic minimum and is the same for x and rc x, "
+                      "min_rc_flip/is_palindrome are characterised; for extension sets all 256 values are checked by the kernel (sides swapped, "
+                      "bases complemented, involution) against the masks extracted from lib.rs. Not yet proved: the DnaString/Lmer/slice "
+                      "instances (modelled, executed on every run).",
+        "design_ref": "DESIGN.md section 6, C12",
+        "level_note": COMMON_NOTE + "Partial: container instances by execution only.",
+        "technique": "Lean 4 proof (list algebra, bit-level refinement, exhaustive kernel decision over 256 extension sets) + differential correspondence",
+    },
+    "C13": {
+        "level_text": "Proved: get_kmer of the byte wrappers (DnaBytes/DnaSlice) spells bases pos..pos+K for every shipped k-mer type; the packed "
+                      "set_slice_mut used by the block walk is proved in C10. The block walk itself (DnaString, Lmer), the slice remap and the two "
+                      "iterator state machines are modelled with the code's control flow and compared, raw storage word by raw storage word, with "
+                      "the crate and with the window reference over all container x k-mer-type pairs on every run.",
+        "design_ref": "DESIGN.md section 6, C13",
+        "level_note": COMMON_NOTE + "Partial: see evidence.partial_theorems; most of this property currently rests on the correspondence check and the executable predicate.",
+        "technique": "Lean 4 proof (byte wrappers) + differential correspondence with executable predicate over all containers",
+    },
+    "C14": {
+        "level_text": "Proved (block level): a storage block is a Kmer32 word; set_by_addr (or-xor-or) changes exactly one base, get_by_addr reads it, "
+                      "block integer order = lexicographic order of its 32 bases (the per-block fact behind the derived Ord), blank(n) has "
+                      "ceil(n/32) zero blocks. The operation-history theorem is not yet proved; histories of all nine operations are "
+                      "executed with the raw storage observed after every step, and eq/hash/ord are compared with the base vector.",
+        "design_ref": "DESIGN.md section 6, C14",
+        "level_note": COMMON_NOTE + "Partial: history/repr_inj/cmp_lex theorems missing.",
+        "technique": "Lean 4 proof (block-level refinement) + differential correspondence with executable predicate over operation histories",
+    },
+    "C15": {
+        "level_text": "Proved (view algebra, for any backing string): slice-of-a-view reads the view at the shifted position in both orientations "
+                      "(get_slice), lengths/orientation of sub-views, exactly which intervals are accepted, rc of a view complements and mirrors, "
+                      "rc∘rc = id, prefix/suffix/interval views of the string, and the repaired Debug equals Display below 256 bases. "
+                      "hammingDist = number of differing positions and the renderers are executed (lengths up to 5000, differences planted "
+                      "at 0/31/32/1023/1024). Two genuine defects (D1 hamming_dist for len>=1024, D2 Debug of rc views) were found by this "
+                      "check and repaired in /repo.",
+        "design_ref": "DESIGN.md section 6, C15",
+        "level_note": COMMON_NOTE + "Partial: list-level statements rest on the C14 refinement.",
+        "technique": "Lean 4 proof (view re-indexing algebra) + differential correspondence with executable predicate",
+    },
+    "C17": {
+        "level_text": "Proved (word level): block_get/block_set are the Kmer32 accessors (single-base writes change exactly the addressed base of "
+                      "the word), new(len) stores and reports len. The multi-word packed write with its length-byte protection, rc and get_kmer "
+                      "are modelled bit for bit for 1..6 words and executed with raw words observed after every step (runs crossing word "
+                      "boundaries and touching the length word are favoured).",
+        "design_ref": "DESIGN.md section 6, C17",
+        "level_note": COMMON_NOTE + "Partial: multi-word theorems missing.",
+        "technique": "Lean 4 proof (word-level refinement) + differential correspondence with executable predicate over write histories",
+    },
 }
